@@ -3,6 +3,7 @@ ENGINES = [
      "kind_free_text": "bounded-exhaustive enumeration of leaf-occupancy patterns x motifs x boxes x block sizes x grouping modes on the real tree and sequential executor, exact integer verification kernel and reference geometry as oracle, crash-safe supervisor"},
     {"name": "E3 schedule explorer", "path": "harness/sched/ + drivers/sched_driver.cpp", "serves_properties": ["C03"],
      "kind_free_text": "mock task runtime (GOMP ABI) + stateless explorer with state cache over (tasks created, tasks executed); real executor re-run on fresh objects per schedule; trace build with own __tsan_* hooks for footprint race check and frame-exact lifetime check"},
+    {"name": "index driver", "path": "drivers/index_driver.cpp", "serves_properties": ["C11"], "kind_free_text": "exhaustive per-level enumeration of cells and groups through the public index API vs reference geometry"},
     {"name": "E6 runner", "path": "tools/check.py", "serves_properties": [], "kind_free_text": "builds drivers from /repo, runs slices on all cores, merges, applies known_findings.json, writes evidence and replays"},
 ]
 NOTES = "See DESIGN.md. All checks rebuild their drivers from /repo/src on every run; scratch output only under /verif/build."
@@ -27,5 +28,11 @@ CLAIMED["C03"] = {"engine": "E3 schedule explorer",
     "note": "trusted: mock runtime's dependency semantics, gcc's GOMP lowering, tasks atomic (overlap covered by footprint analysis); Specx/StarPU executors only through API-compatible mocks (real runtimes not installed)",
     "technique": "stateless model checking of the implementation: exhaustive exploration of schedule states (tasks created, tasks executed) under a controlled mock task runtime, with state cache; deviation-bounded beyond"}
 
+CLAIMED["C11"] = {"engine": "index driver",
+    "text": "Every cell of every level (bounded heights) of every shipped ordering, and the boundary lattice up to the largest 63-bit level, is pushed through the whole public index API and compared with the geometric definitions by set equality.",
+    "design_ref": "DESIGN.md section 5 C11",
+    "note": "trusted: harness/vf_ref.hpp (definitions: coordinates >> 1, Chebyshev distance, base-7/base-3 codes); Hilbert geometry is a known finding (D5)",
+    "technique": "bounded-exhaustive enumeration of all cells/levels/groups against a reference model, under a watchdog"}
+
 _pending = "check not built yet in this round (planned, see DESIGN.md section 11); not claimed until it runs end to end"
-NOT_APPLICABLE = {p: _pending for p in ["C04", "C05", "C09", "C10", "C11", "C12", "C13", "C14", "C15", "C17", "C18", "C19", "C20"]}
+NOT_APPLICABLE = {p: _pending for p in ["C04", "C05", "C09", "C10", "C12", "C13", "C14", "C15", "C17", "C18", "C19", "C20"]}
